@@ -82,6 +82,12 @@ def run_scenario(bins, sc, keep=False):
             args.append("--fail-on-undefined")
         args += sc.get("extra_args", [])
         fx.reset_helper()
+        listener = None
+        if sc.get("listener"):
+            import tail as taillib
+            listener = taillib.Listener(fx, {"stdout": True, "stderr": True})
+            if not listener.ready:
+                raise vlib.ToolError("listener did not come up")
         t0 = time.time()
         env = dict(sc.get("env") or {})
         hook_trace = os.path.join(fx.root, "hooks.ndjson")
@@ -93,6 +99,8 @@ def run_scenario(bins, sc, keep=False):
             with open(hook_trace) as f:
                 hooks = sorted((json.loads(l) for l in f if l.strip()), key=lambda e: e["seq"])
         wall = time.time() - t0
+        if listener is not None:
+            listener.kill()
         # wait for stragglers (cancelled siblings keep running after monorail exits)
         deadline = time.time() + sc.get("straggler_wait", 3.0)
         while time.time() < deadline:
@@ -163,6 +171,8 @@ def targets_from_dag(nt, dep, names=None, rng=None):
         if uses:
             t["uses"] = uses
         ts.append(t)
+    # declaration order is not dependency order: dependencies may be declared after their dependents
+    (rng or random.Random(nt * 7919 + len(dep))).shuffle(ts)
     return ts, paths
 
 
@@ -175,7 +185,7 @@ def scenario_from_behaviour(b, idx=0, rng=None, variant=0):
     rng = rng or random.Random(idx)
     nt, ncmd = b["nt"], b["ncmd"]
     dep = [tuple(d) for d in b["dep"]]
-    ts, paths = targets_from_dag(nt, dep)
+    ts, paths = targets_from_dag(nt, dep, rng=rng)
     cmds = ["build", "test", "lint"][:ncmd]
     kinds = {}
     for c, t, kd in b["kinds"]:
